@@ -8,7 +8,7 @@ origin = sys.argv[4] if len(sys.argv) > 4 else "independent sub-agent given the 
 V = os.path.dirname(os.path.dirname(os.path.abspath(__file__)))
 dst = os.path.join(V, "seeded", name)
 os.makedirs(dst, exist_ok=True)
-for f in ("patch.diff", "demo.rs", "README.md", "demo_flags.txt"):
+for f in ("patch.diff", "demo.rs", "README.md", "demo_flags.txt", "demo_devdeps.txt"):
     if os.path.exists(os.path.join(src, f)):
         shutil.copy(os.path.join(src, f), os.path.join(dst, f))
 r = subprocess.run([os.path.join(V, "tools", "mutant.sh"), "confirm", dst], capture_output=True, text=True)
